@@ -114,6 +114,14 @@ pub fn table() -> Vec<ConstCase> {
     t.push(f32c("APPROX_FRAC_1_PI", "approx", "0.3183", 0.3183));
     t.push(f32c("NEG_APPROX_PI", "approx", "-3.14159", -3.14159));
     t.push(f32c("EXACT_PI_F32", "approx", "3.14159265358979", std::f32::consts::PI));
+    // ---- scalar types written through `alias` declarations (explicit type, zero value, conversion)
+    t.push(ConstCase { name: "AL_F32".into(), decl: "alias RealA = f32;\nconst AL_F32: RealA = 2.5;".into(), expect: Some((vec!["f32"], Bits::F32(2.5f32.to_bits()))), form: "alias" });
+    t.push(ConstCase { name: "AL_I32".into(), decl: "alias IndexA = i32;\nconst AL_I32: IndexA = -4;".into(), expect: Some((vec!["i32"], Bits::Int(-4))), form: "alias" });
+    t.push(ConstCase { name: "AL_U32".into(), decl: "alias CountA = u32;\nconst AL_U32: CountA = 7u;".into(), expect: Some((vec!["u32"], Bits::Int(7))), form: "alias" });
+    t.push(ConstCase { name: "AL_BOOL".into(), decl: "alias FlagA = bool;\nconst AL_BOOL: FlagA = true;".into(), expect: Some((vec!["bool"], Bits::Bool(true))), form: "alias" });
+    t.push(ConstCase { name: "AL_ZERO".into(), decl: "alias RealB = f32;\nconst AL_ZERO = RealB();".into(), expect: Some((vec!["f32"], Bits::F32(0))), form: "alias" });
+    t.push(ConstCase { name: "AL_CONV".into(), decl: "alias RealC = f32;\nconst AL_CONV = RealC(0.5);".into(), expect: Some((vec!["f32"], Bits::F32(0.5f32.to_bits()))), form: "alias" });
+    t.push(ConstCase { name: "AL_F64".into(), decl: "alias DoubleA = f64;\nconst AL_F64: DoubleA = 1.25lf;".into(), expect: Some((vec!["f64"], Bits::F64(1.25f64.to_bits()))), form: "alias" });
     // ---- names that extend (but are not) names the generator introduces itself
     t.push(u32c("SOURCE_COUNT", "name-style", "3u", 3));
     t.push(i32c("SOURCES", "name-style", "-2", -2));
